@@ -438,7 +438,7 @@ theorem block_conserves (fuel : Nat) (w : World) (hj : w.fl.p002 = true) (h : Na
 /-- the escrow as `CheckAndMove` finds it at the end of the block: what was there, plus UNSTAKE refunds of the block,
     plus the context refunds, plus the block reward -/
 def escrowAtPayout (fuel : Nat) (w : World) (h : Nat) (txs : List Tx) (rewards : Escrow) : Escrow :=
-  let w1 := (execTxs fuel { w with ctx := { gasUsed := none, pending := [] }, st := { w.st with height := h } } txs).1
+  let w1 := (execTxs fuel { w with ctx := { gasUsed := none, pending := [] }, st := { w.st with height := h, p014 := w.fl.p014 } } txs).1
   w1.st.escrow ++ (w1.ctx.pending ++ rewards)
 
 /-- Over a block the sum of all balances grows by at most the escrow entries that fall due at this height
@@ -446,7 +446,7 @@ def escrowAtPayout (fuel : Nat) (w : World) (h : Nat) (txs : List Tx) (rewards :
 theorem block_mints_only_due (fuel : Nat) (w : World) (hj : w.fl.p002 = true) (h : Nat) (txs : List Tx) (rewards : Escrow) :
     total (execBlock fuel w h txs rewards).1.st.bal
       ≤ total w.st.bal + ((dueAt (escrowAtPayout fuel w h txs rewards) h).map (·.2)).sum := by
-  have h1 := execTxs_total_le fuel txs { w with ctx := { gasUsed := none, pending := [] }, st := { w.st with height := h } } hj
+  have h1 := execTxs_total_le fuel txs { w with ctx := { gasUsed := none, pending := [] }, st := { w.st with height := h, p014 := w.fl.p014 } } hj
   unfold execBlock escrowAtPayout
   simp only at h1 ⊢
   generalize execTxs fuel _ txs = r at h1 ⊢
@@ -486,6 +486,41 @@ theorem apply_exact (s s2 : St) (src : Addr) (id typ stake : Nat) (account : Add
 example : (minerApply { bal := [(1, 500000000000000000000)], dead := [], fresh := 0, burned := 0 } 1 7 0 400 1 true).isSome = true
     ∧ (minerApply { bal := [(1, 500000000000000000000)], dead := [], fresh := 0, burned := 0 } 1 7 0 399 1 true).isSome = false := by
   decide +kernel
+
+/-- Miner change-account (type 6): only the registry's account slot changes — wealth, balances and stake stay. -/
+theorem change_account_exact (s s2 : St) (src : Addr) (id : Nat) (newAcct : Addr)
+    (h : minerChange s src id newAcct = some s2) :
+    wealth s2 = wealth s ∧ s2.bal = s.bal ∧ stakeSum s2.reg = stakeSum s.reg := by
+  have hm := minerChange_spec s s2 src id newAcct h
+  have he : s2.escrow = s.escrow ∧ s2.excess = s.excess := by
+    unfold minerChange at h
+    cases hg : regGet s.reg id with
+    | none => simp [hg] at h
+    | some m =>
+      simp only [hg] at h
+      repeat' split at h
+      all_goals first | (simp only [Option.some.injEq] at h; subst h; exact ⟨rfl, rfl⟩) | cases h
+  have e1 : escrowTotal s2.escrow = escrowTotal s.escrow := by rw [he.1]
+  have e2 := he.2
+  have e3 : total s2.bal = total s.bal := by rw [hm.2.2]
+  have hb := hm.2.1
+  have h1 := hm.1
+  unfold mass at h1
+  unfold wealth
+  refine ⟨by omega, hm.2.2, by omega⟩
+
+example : (minerChange { bal := [], dead := [], fresh := 0, burned := 0, reg := [{ id := 7, account := 1, stake := 400, typ := 0, visible := true }] } 1 7 2).isSome = true := by
+  decide
+
+/-- Before Proposal014 the jump table has no STAKE / UNSTAKE / UNSTAKEALL / AUTHCALL: a frame reaching one fails on the
+    spot, with nothing changed by that instruction. -/
+theorem pre014_opcodes_fail (code : Code) (origin : Addr) (jr : Bool) (f : Nat) (self : Addr) (ro : Bool) (rest : Script)
+    (s : St) (h : s.p014 = false) (v : Nat) (to : Addr) :
+    exec code origin jr (f + 1) self ro (.stake v :: rest) s = (s, false) ∧
+    exec code origin jr (f + 1) self ro (.unstake v :: rest) s = (s, false) ∧
+    exec code origin jr (f + 1) self ro (.unstakeAll :: rest) s = (s, false) ∧
+    exec code origin jr (f + 1) self ro (.authcall to v :: rest) s = (s, false) := by
+  refine ⟨?_, ?_, ?_, ?_⟩ <;> simp [exec, h]
 
 /-- Miner add-stake and miner refund keep the wealth: the first moves balance into the registry, the second moves
     registry stake into the (pending) escrow — by exactly the whole tokens named. -/
